@@ -10,6 +10,9 @@
 //! residuals are exactly equal, RANSAC with min_r / max_r exactly equal to the generating radius.
 //! ROUND 4: RANSAC on large inputs (>= 2000 points) whose point ORDER is correlated with circle membership (interleaved scans,
 //! blocks): the inlier count of the result is taken over ALL points.
+//! WAVE 5: parameter-space audit (notes/w5_audit_C09.md): magnitudes (scaled / offset abscissae, many samples, tiny / huge / far
+//! circles), parameter relations (weights of huge ratio, all-equal weights, radius windows that exclude a better circle), exact
+//! ties (duplicates, coincident points, one-ulp collinearity), shapes, evaluation helpers, sigma clipping that removes samples.
 use super::{close, Report};
 use crate::common::BestFit;
 use crate::func1::{Func1, Polynomial, Series1};
@@ -600,13 +603,32 @@ fn check_poly_w5<const K: usize>(r: &mut Report) {
     for off in offs.iter() {
         let xs: Vec<f64> = spread.iter().map(|d| off + d).collect();
         let cs: Vec<[f64; K]> = vec![shifted::<K>(*off, -2.0, 3.0, 0.5), shifted::<K>(*off, 4.0, -0.5, -1.0)];
-        w5_poly_family::<K>(r, &format!("integers {:?} + [0, 13]", off), &xs, &cs, &none_and(WEIGHTS[1][..8].to_vec()), if K == 2 { 1e-9 } else { 1e-6 });
+        w5_poly_family::<K>(r, &format!("integers {:?} + [0, 13]", off), &xs, &cs, &none_and(WEIGHTS[1][..8].to_vec()), if K == 2 { 1e-8 } else { 1e-6 });
         // offset with a comparable spread (relative spacing O(1))
         let xs2: Vec<f64> = spread.iter().map(|d| off * (1.0 + d / 8.0)).collect();
         let m = xs2.iter().fold(0.0f64, |a, b| a.max(b.abs()));
         let cs2: Vec<[f64; K]> = COEFFS[..2].iter().map(|cf| scaled::<K>(cf, m)).collect();
         w5_poly_family::<K>(r, &format!("{:?} * (1 + [0, 13] / 8)", off), &xs2, &cs2, &none_and(WEIGHTS[1][..8].to_vec()), 1e-8);
     }
+    // (1b') K = 3 at +-1000: the monomial coefficients themselves are ill determined in f64 (measured error 4e-3 of their
+    // natural magnitude), so only interpolation of the exact samples and the normal equations are compared (loose tolerance).
+    // At 4096 + [0, 13] the f64 normal matrix is numerically singular and the returned quadratic is garbage (observation, see the
+    // audit note): outside the bounded input space, like clustered abscissae with K >= 4
+    if K == 3 { for off in [1000.0, -1000.0] {
+        let xs: Vec<f64> = spread.iter().map(|d| off + d).collect();
+        for (ci, c) in [shifted::<K>(off, -2.0, 3.0, 0.5), shifted::<K>(off, 4.0, -0.5, -1.0)].iter().enumerate() {
+            let ys: Vec<f64> = xs.iter().map(|x| horner(c, *x)).collect();
+            r.case();
+            let fit = fit_caught::<K>(&xs, &ys, None);
+            let ok = match &fit { Some(f) => within(&format!("poly K=3 far offset {:?}: interp", off), interp_err(&f.c, &xs, &ys), 1e-4), None => false };
+            r.check(ok, CL_INTERP, || format!("K=3 abscissae {:?} coefficients {:?}: fit {:?}", xs, c, fit.as_ref().map(|p| p.c)));
+            let yd: Vec<f64> = (0..8).map(|i| DATA[ci][i]).collect();
+            r.case();
+            let fit = fit_caught::<K>(&xs, &yd, None);
+            let ok = match &fit { Some(f) => within(&format!("poly K=3 far offset {:?}: normal-eq", off), normal_eq_err(&f.c, &xs, &yd, &vec![1.0; 8]), 1e-4), None => false };
+            r.check(ok, CL_ORTHO, || format!("K=3 abscissae {:?} data {:?}: fit {:?}", xs, yd, fit.as_ref().map(|p| p.c)));
+        }
+    } }
     // (1c) many samples (asymmetric dyadic grids), periodic non-uniform weights
     for (n, shift, den) in [(100usize, 30.0, 64.0), (1025, 400.0, 512.0), (4097, 1500.0, 2048.0)] {
         let xs: Vec<f64> = (0..n).map(|k| (k as f64 - shift) / den).collect();
@@ -618,7 +640,9 @@ fn check_poly_w5<const K: usize>(r: &mut Report) {
         let xs = [3.0, -2.0, 0.0, -2.0, 1.0, 0.0, 4.0, 3.0, -1.0, 0.0];
         let cs: Vec<[f64; K]> = COEFFS.iter().map(|cf| scaled::<K>(cf, 1.0)).collect();
         let w10: Vec<f64> = (0..10).map(|i| WEIGHTS[1][(i * 4) % 9]).collect();
-        w5_poly_family::<K>(r, "ten samples on six distinct integers (duplicates, unsorted)", &xs, &cs, &none_and(w10), 1e-6);
+        w5_poly_family::<K>(r, "ten samples on six distinct integers (duplicates, unsorted)", &xs, &cs, &none_and(w10.clone()), 1e-6);
+        let xs2 = [-2.0, -2.0, -1.0, 0.0, 0.0, 0.0, 1.0, 3.0, 3.0, 4.0];
+        w5_poly_family::<K>(r, "ten samples on six distinct integers (ascending, consecutive duplicates)", &xs2, &cs, &none_and(w10), 1e-6);
     }
     // (2)/(3) weights: huge ratio, uniformly tiny / huge, geometric; all equal == None
     {
@@ -636,7 +660,7 @@ fn check_poly_w5<const K: usize>(r: &mut Report) {
             r.case();
             let a = fit_caught::<K>(&pos9, d, None);
             let b = fit_caught::<K>(&pos9, d, Some(&vec![wc; 9]));
-            let ok = match (&a, &b) { (Some(a), Some(b)) => within(&format!("poly equal weights K={}", K), coeff_err(&b.c, &a.c, &pos9), 1e-9), _ => false };
+            let ok = match (&a, &b) { (Some(a), Some(b)) => within(&format!("poly equal weights K={}", K), coeff_err(&b.c, &a.c, &pos9), 1e-8), _ => false };
             r.check(ok, CL_ONES, || format!("K={} abscissae {:?} data {:?}: weights None -> {:?}, weights Some([{:?}; 9]) -> {:?}", K, pos9, d, a.as_ref().map(|p| p.c), wc, b.as_ref().map(|p| p.c)));
         } }
         // order of the samples (reversed, rotated): the same minimiser
@@ -829,6 +853,19 @@ fn check_three_points_w5(r: &mut Report) {
         let res = Circle2::from_3_points(p0, p1, p2);
         r.check(res.is_err(), CL_COL, || format!("from_3_points({:?}, {:?}, {:?}) (points {:?} + t*{:?}, t = {:?}, {:?}, {:?}{}) -> {:?}", (p0.x, p0.y), (p1.x, p1.y), (p2.x, p2.y), o, d, ts[a], ts[b], ts[c], if a == b || b == c || a == c { "; coincident points" } else { "" }, res.as_ref().map(|c| (c.x(), c.y(), c.r())).map_err(|_| "Err")));
     } } } }
+    // collinear within one ulp: exactly collinear points (integers / dyadics, non-axis-aligned) with ONE coordinate moved to the
+    // next representable number in either direction
+    let nudge = |v: f64, up: bool| -> f64 { if v == 0.0 { if up { f64::MIN_POSITIVE } else { -f64::MIN_POSITIVE } } else if (v > 0.0) == up { f64::from_bits(v.to_bits() + 1) } else { f64::from_bits(v.to_bits() - 1) } };
+    for (o, d) in [((0.0, 0.0), (3.0, 7.0)), ((-3.0, 1.0), (2.0, 1.0)), ((1000.0, -3000.0), (3.0, 7.0)), ((1000000.0, -3000000.0), (-5.0, 2.0)), ((0.5, 0.25), (0.375, -0.625))] {
+        for (ta, tb, tc) in [(0.0, 1.0, 2.0), (-3.0, 0.5, 10.0), (7.0, -1.0, 2.5), (1.0, 10.0, -3.0)] { for which in 0..6 { for up in [false, true] {
+            let mut c = [o.0 + d.0 * ta, o.1 + d.1 * ta, o.0 + d.0 * tb, o.1 + d.1 * tb, o.0 + d.0 * tc, o.1 + d.1 * tc];
+            c[which] = nudge(c[which], up);
+            let (p0, p1, p2) = (Point2::new(c[0], c[1]), Point2::new(c[2], c[3]), Point2::new(c[4], c[5]));
+            r.case();
+            let res = Circle2::from_3_points(p0, p1, p2);
+            r.check(res.is_err(), CL_COL, || format!("from_3_points({:?}, {:?}, {:?}) (points {:?} + t*{:?}, t = {:?}, {:?}, {:?}; coordinate {} moved by one ulp {}) -> {:?}", (p0.x, p0.y), (p1.x, p1.y), (p2.x, p2.y), o, d, ta, tb, tc, which, if up { "up" } else { "down" }, res.as_ref().map(|c| (c.x(), c.y(), c.r())).map_err(|_| "Err")));
+        } } }
+    }
 }
 
 // ---------------------------------------------------------------- wave 5: circle fit
@@ -877,6 +914,19 @@ fn check_circle_fit_w5(r: &mut Report) {
             r.check(recovered(&res, cx, cy, rad), CLAUSE, || format!("fitting_circle({} of circle ({:?}, {:?}, r {:?}) over [{:?}, {:?}] degrees, guess ({:?}, {:?}, r {:?}), {}) -> {:?}", vn, cx, cy, rad, a0, a0 + sw, guess.x(), guess.y(), guess.r(), mode_name(&mode), res.map(|c| (c.x(), c.y(), c.r()))));
         }
     } } } }
+    // (1) many PERTURBED samples (BestFit::All): the stationary point is that of ALL the samples
+    for (cx, cy, rad) in [(3.0, -2.0, 5.0), (-40.0, 25.0, 12.5)] { for (a0, sw) in [(10.0, 200.0), (0.0, 360.0)] { for n in [2049usize, 5000] { for (gx, gy, gs) in [ring[1], ring[4]] {
+        let guess = Circle2::new(cx + gx * rad, cy + gy * rad, rad * gs);
+        let pts = arc_points(cx, cy, rad, a0, sw, n, 0.05 * rad);
+        r.case();
+        let res = Circle2::fitting_circle(&pts, &guess, BestFit::All).ok();
+        let desc = || format!("fitting_circle({} samples of circle ({:?}, {:?}, r {:?}) over [{:?}, {:?}] degrees perturbed by up to {:?}, guess ({:?}, {:?}, r {:?}), All) -> {:?}", n, cx, cy, rad, a0, a0 + sw, 0.05 * rad, guess.x(), guess.y(), guess.r(), res.map(|c| (c.x(), c.y(), c.r())));
+        match res {
+            None => r.check(false, "circle fit of perturbed samples terminates successfully", desc),
+            Some(c) => { let (g, scale) = gradient(&pts, &c); let gn = (g[0] * g[0] + g[1] * g[1] + g[2] * g[2]).sqrt();
+                r.check(within("circle fit (many perturbed samples): gradient / sum 2|res|", gn / scale, 1e-5), CL_STAT, || format!("{} gradient {:?} (sum of 2|residual| = {:?})", desc(), g, scale)); }
+        }
+    } } } }
     // (2) guesses in all eight directions at 0.15 r, radius 15% small / large
     for (cx, cy, rad) in [(3.0, -2.0, 5.0), (0.5, 0.25, 0.125)] { for (a0, sw) in [(17.0, 60.0), (-45.0, 135.0)] { for dir in 0..8 { for gs in [0.85, 1.15] {
         let a = (dir as f64 * 45.0f64).to_radians();
@@ -890,17 +940,21 @@ fn check_circle_fit_w5(r: &mut Report) {
     // summed squared residuals of the samples within sigma standard deviations of the mean residual (population standard
     // deviation; the gap between kept and clipped samples is wide, so the kept set does not depend on the convention)
     const CL_CLIP: &str = "circle fit in BestFit::Gaussian(sigma) mode stops at a stationary point of the summed squared radial residuals of the samples within sigma standard deviations";
-    for (cx, cy, rad) in [(3.0, -2.0, 5.0), (-40.0, 25.0, 12.5), (1000.0, -2000.0, 1.0)] { for (a0, sw) in [(10.0, 200.0), (0.0, 360.0), (200.0, 120.0)] { for (n_out, off) in [(1usize, 0.6), (3, 0.5), (3, -0.45), (2, 0.8)] { for sigma in [2.0, 2.5] { for (gx, gy, gs) in [ring[0], ring[1], ring[2]] { for amp in [0.0, 0.02] {
+    // layouts: 40 samples with 1..3 outliers among them; 3000 samples with 60 / 180 outliers ALL AT THE END of the list
+    for (cx, cy, rad) in [(3.0, -2.0, 5.0), (-40.0, 25.0, 12.5), (1000.0, -2000.0, 1.0)] { for (a0, sw) in [(10.0, 200.0), (0.0, 360.0), (200.0, 120.0)] { for (n_in, n_out, off) in [(40usize, 1usize, 0.6), (40, 3, 0.5), (40, 3, -0.45), (40, 2, 0.8), (3000, 60, 0.6), (3000, 180, -0.45)] { for sigma in [2.0, 2.5] { for (gx, gy, gs) in [ring[0], ring[1], ring[2]] { for amp in [0.0, 0.02] {
+        if n_in > 40 && (sigma != 2.0 || amp == 0.0 || gs == 1.0) { continue; }
         let guess = Circle2::new(cx + gx * rad, cy + gy * rad, rad * gs);
-        let mut pts = arc_points(cx, cy, rad, a0, sw, 40, amp * rad);
+        let mut pts = arc_points(cx, cy, rad, a0, sw, n_in, amp * rad);
+        let mut out_idx: Vec<usize> = vec![];
         for j in 0..n_out {
-            let a = (a0 + sw * (0.2 + 0.3 * j as f64)).to_radians();
-            let rr = rad * (1.0 + off * (1.0 + 0.1 * j as f64));
-            pts.insert(5 + 11 * j, Point2::new(cx + rr * a.cos(), cy + rr * a.sin()));
+            let a = (a0 + sw * if n_in == 40 { 0.2 + 0.3 * j as f64 } else { (j as f64 + 0.5) / n_out as f64 }).to_radians();
+            let rr = rad * (1.0 + off * (1.0 + 0.1 * (j % 3) as f64));
+            let q = Point2::new(cx + rr * a.cos(), cy + rr * a.sin());
+            if n_in == 40 { pts.insert(5 + 11 * j, q); out_idx.push(5 + 11 * j); } else { out_idx.push(pts.len()); pts.push(q); }
         }
         r.case();
         let res = Circle2::fitting_circle(&pts, &guess, BestFit::Gaussian(sigma)).ok();
-        let desc = || format!("fitting_circle(40 samples of circle ({:?}, {:?}, r {:?}) over [{:?}, {:?}] degrees perturbed by up to {:?} + {} outliers radially off by {:?} r at the indices 5, 16, 27: {:?}, guess ({:?}, {:?}, r {:?}), Gaussian({:?})) -> {:?}", cx, cy, rad, a0, a0 + sw, amp * rad, n_out, off, pts.iter().map(|p| (p.x, p.y)).collect::<Vec<_>>(), guess.x(), guess.y(), guess.r(), sigma, res.map(|c| (c.x(), c.y(), c.r())));
+        let desc = || format!("fitting_circle({} samples of circle ({:?}, {:?}, r {:?}) over [{:?}, {:?}] degrees perturbed by up to {:?} + {} outliers radially off by about {:?} r at the indices {:?}..: {:?}.., guess ({:?}, {:?}, r {:?}), Gaussian({:?})) -> {:?}", n_in, cx, cy, rad, a0, a0 + sw, amp * rad, n_out, off, &out_idx[..n_out.min(3)], pts.iter().take(43).map(|p| (p.x, p.y)).collect::<Vec<_>>(), guess.x(), guess.y(), guess.r(), sigma, res.map(|c| (c.x(), c.y(), c.r())));
         match res {
             None => r.check(false, "circle fit of perturbed samples terminates successfully", desc),
             Some(c) => {
@@ -914,7 +968,7 @@ fn check_circle_fit_w5(r: &mut Report) {
                 let (g, scale) = gradient(&kept, &c);
                 let gn = (g[0] * g[0] + g[1] * g[1] + g[2] * g[2]).sqrt();
                 let e = if amp == 0.0 { gn / (1e-9 * rad * kept.len() as f64) * 1e-5 } else { gn / scale };
-                r.check(gap && kept.len() == 40 && within("circle fit (sigma clipping): gradient over the kept samples", e, 1e-5), CL_CLIP, || format!("{}; kept {} samples, deviations / std of the outliers {:?}, gradient over the kept samples {:?} (sum of 2|residual| = {:?})", desc(), kept.len(), (0..n_out).map(|j| dev[5 + 11 * j]).collect::<Vec<_>>(), g, scale));
+                r.check(gap && kept.len() == n_in && out_idx.iter().all(|i| dev[*i] > sigma) && within("circle fit (sigma clipping): gradient over the kept samples", e, 1e-5), CL_CLIP, || format!("{}; kept {} samples, deviations / std of the outliers {:?}, gradient over the kept samples {:?} (sum of 2|residual| = {:?})", desc(), kept.len(), out_idx.iter().take(3).map(|i| dev[*i]).collect::<Vec<_>>(), g, scale));
             }
         }
     } } } } } }
@@ -977,6 +1031,28 @@ fn check_ransac_w5(r: &mut Report) {
                 || format!("ransac({} points: {} samples of circle ({:?}, {:?}, r {:?}) + {} outliers spread among them, tol {:?}, iterations {:?}, min_r {:?}, max_r {:?}) -> {}; generating circle has {} inliers", pts.len(), n_in, cx, cy, rad, n_out, tol, it, lo, hi, show(&res, &count), want));
         }
     }
+    // (3)/(5) inliers that are NOT exactly on the circle: samples radially off by up to a quarter of the tolerance (deterministic
+    // pattern, both sides) + far outliers; every sample is an inlier of the generating circle
+    for (cx, cy, rad, tol) in [(2.0, -1.0, 10.0, 0.05), (1000.0, -2000.0, 50.0, 0.1), (-3.0, 4.0, 0.5, 0.01)] { for (n_in, n_out) in [(40usize, 15usize), (60, 40)] { for amp in [0.1, 0.25] {
+        let mut pts: Vec<Point2> = (0..n_in).map(|i| {
+            let a = 0.05 + 6.2 * i as f64 / n_in as f64;
+            let d = rad + tol * amp * (((i * 7) % 11) as f64 / 5.0 - 1.0);
+            Point2::new(cx + d * a.cos(), cy + d * a.sin()) }).collect();
+        for k in 0..n_out {
+            let a = (k as f64 * 47.0 + 11.0).to_radians();
+            let d = rad * (0.2 + 0.15 * ((k * 5) % 7) as f64) + if k % 2 == 0 { rad * 0.9 } else { 0.0 };
+            pts.insert((k * 3 + 1) % pts.len(), Point2::new(cx + d * a.cos(), cy + d * a.sin()));
+        }
+        let gen = Circle2::new(cx, cy, rad);
+        let count = |c: &Circle2| pts.iter().filter(|p| c.distance_to(p).abs() < tol).count();
+        let want = count(&gen);
+        for it in [None, Some(1500usize)] {
+            r.case();
+            let res = Circle2::ransac(&pts, tol, it, None, None);
+            r.check(want >= n_in && match &res { Ok(c) => count(c) >= want, Err(_) => false }, CL,
+                || format!("ransac({:?}: {} samples of circle ({:?}, {:?}, r {:?}) radially off by up to {:?} tol + {} outliers, tol {:?}, iterations {:?}) -> {}; generating circle has {} inliers", pts.iter().map(|p| (p.x, p.y)).collect::<Vec<_>>(), n_in, cx, cy, rad, amp, n_out, tol, it, show(&res, &count), want));
+        }
+    } } }
     // (2) a radius window that EXCLUDES a better supported circle: the result must respect the window and still be supported
     // by at least as many points as the generating circle (which is the best circle inside the window)
     for (gen, decoy) in [((2.0, -1.0, 5.0), (-6.0, 4.0, 2.0)), ((-4.0, 3.0, 2.0), (6.5, -5.0, 5.0))] {
@@ -1017,7 +1093,7 @@ fn run_w5(r: &mut Report) {
 }
 
 pub fn run() -> Option<Report> {
-    let mut r = Report::new("polynomial sizes K=2..=6 x 6 abscissa sets (asymmetric integers, dyadic offset from zero, uneven both signs, positive side, 7 values within 4e-4 of 1.0 [K=2], 9 values within 0.07 of -2 [K<=3]) x {no weights, 2 non-uniform positive weight vectors} x {3 exact coefficient vectors, 2 arbitrary data vectors}; Series1 lines on 5 abscissa sets incl. clustered distinct values x 5 data vectors; three-point circles on all ordered triples of 10 points with |det| >= 1 and on 6 lines x all ordered triples of 8 parameters (exactly collinear and collinear up to rounding); circle fit on 4 circles x 6 arcs (60..360 degrees, 40 samples) x 6 guesses (centre within 0.16 r, radius within 15%) x {exact, perturbed 2% r, perturbed 8% r}; RANSAC on 3 contaminated sample sets (36 inliers + 8/12/18 outliers); ROUND 2: polynomial sizes K=2..=6 on {K, K+1, 8} distinct integer abscissae with ordinates that are exactly 0.0 (exact samples of polynomials with 1 / K-1 roots at the abscissae, 2 data vectors with 3..5 zeros) x {no weights, positive weights, weights with one 0.0 [more than K samples]}, a panic counts as a failing input; tightly clustered distinct dyadic abscissae: six values k/256 in [0, 0.02] (K <= 3, coefficient tolerance 1e-7) and four values {2,3,4,6}*2^-21 in [9.5e-7, 2.9e-6] (K = 2, tolerance 1e-9), also for Series1; circle fit from exactly 3 / 4 / 5 samples on 5 circles (r = 2.5e-4, 1e-3, 0.125) x 4 arcs (60 .. 288 degrees) x 9 guesses (ring of round 1 + concentric with the radius off by 15% / 25%) x {All, Gaussian(3.0)}; exactly representable samples (integer points of x^2+y^2=25, shifted / scaled by 1/16, 5 subsets of 3..12 points) x 5 guesses (4 concentric with a wrong / the right radius) x {All, Gaussian(3.0), Gaussian(2.0)}; the 40-sample exact arcs in Gaussian(3.0) mode; RANSAC on the 12 integer points of a radius-5 circle + 7 outliers with min_r / max_r exactly 5.0 (6 windows x 2 centres); ROUND 4: RANSAC on LARGE inputs (2000 / 3000 / 5000 points: 35% exact samples of the generating circle, 25% of a smaller decoy circle, the rest scattered; 2 circle pairs) whose ORDER is correlated with circle membership - interleaved with period len/1000 (decoy samples on one residue class 0 / 1 / period-1, generating samples on the others) and 3 block layouts (generating samples first / last) - x {default iterations, 400 iterations with a radius window holding both circles}, tol 1e-3; RANSAC with contamination just outside the tolerance band: 20 / 26 exact samples on a 1.6 rad arc + 9 / 11 / 13 outliers radially offset by 1.4 .. 10 tolerances on alternating sides (3 base offsets, appended or interleaved, the list rotated by 8 amounts, 2 circles; 576 inputs), default iterations");
+    let mut r = Report::new("polynomial sizes K=2..=6 x 6 abscissa sets (asymmetric integers, dyadic offset from zero, uneven both signs, positive side, 7 values within 4e-4 of 1.0 [K=2], 9 values within 0.07 of -2 [K<=3]) x {no weights, 2 non-uniform positive weight vectors} x {3 exact coefficient vectors, 2 arbitrary data vectors}; Series1 lines on 5 abscissa sets incl. clustered distinct values x 5 data vectors; three-point circles on all ordered triples of 10 points with |det| >= 1 and on 6 lines x all ordered triples of 8 parameters (exactly collinear and collinear up to rounding); circle fit on 4 circles x 6 arcs (60..360 degrees, 40 samples) x 6 guesses (centre within 0.16 r, radius within 15%) x {exact, perturbed 2% r, perturbed 8% r}; RANSAC on 3 contaminated sample sets (36 inliers + 8/12/18 outliers); ROUND 2: polynomial sizes K=2..=6 on {K, K+1, 8} distinct integer abscissae with ordinates that are exactly 0.0 (exact samples of polynomials with 1 / K-1 roots at the abscissae, 2 data vectors with 3..5 zeros) x {no weights, positive weights, weights with one 0.0 [more than K samples]}, a panic counts as a failing input; tightly clustered distinct dyadic abscissae: six values k/256 in [0, 0.02] (K <= 3, coefficient tolerance 1e-7) and four values {2,3,4,6}*2^-21 in [9.5e-7, 2.9e-6] (K = 2, tolerance 1e-9), also for Series1; circle fit from exactly 3 / 4 / 5 samples on 5 circles (r = 2.5e-4, 1e-3, 0.125) x 4 arcs (60 .. 288 degrees) x 9 guesses (ring of round 1 + concentric with the radius off by 15% / 25%) x {All, Gaussian(3.0)}; exactly representable samples (integer points of x^2+y^2=25, shifted / scaled by 1/16, 5 subsets of 3..12 points) x 5 guesses (4 concentric with a wrong / the right radius) x {All, Gaussian(3.0), Gaussian(2.0)}; the 40-sample exact arcs in Gaussian(3.0) mode; RANSAC on the 12 integer points of a radius-5 circle + 7 outliers with min_r / max_r exactly 5.0 (6 windows x 2 centres); ROUND 4: RANSAC on LARGE inputs (2000 / 3000 / 5000 points: 35% exact samples of the generating circle, 25% of a smaller decoy circle, the rest scattered; 2 circle pairs) whose ORDER is correlated with circle membership - interleaved with period len/1000 (decoy samples on one residue class 0 / 1 / period-1, generating samples on the others) and 3 block layouts (generating samples first / last) - x {default iterations, 400 iterations with a radius window holding both circles}, tol 1e-3; RANSAC with contamination just outside the tolerance band: 20 / 26 exact samples on a 1.6 rad arc + 9 / 11 / 13 outliers radially offset by 1.4 .. 10 tolerances on alternating sides (3 base offsets, appended or interleaved, the list rotated by 8 amounts, 2 circles; 576 inputs), default iterations; WAVE 5 (notes/w5_audit_C09.md): polynomial sizes K=2..=6 on abscissae scaled by 2^-20 .. 2^20 (K=2), 2^-10 .. 2^10 (K=3), 2^-5 / 2^5 (K=4), 1/4 / 4 (K=5,6); integer abscissae offset by +-1e3 .. +-1e6 with spread 13 and with relative spread (K=2), +-100 (K=3), +-1000 (K=3: interpolation and normal equations only); 100 / 1025 / 4097 samples; duplicate abscissae (unsorted, consecutive); weights with ratio 2^40 (K<=4), uniformly 2^-30 / 2^30, geometric; all-equal weights vs none; reversed / rotated sample order; exactly K samples with weight ratio 2^10; end points symmetric with asymmetric interior, mean exactly zero, cluster + leverage points, geometric spacing, all negative (K<=3); all ordinates 0.0 / equal; Polynomial::f / fs against Horner at 10 abscissae in [-1000, 1000], Line1::new_mxb / m / b; Series1 lines on integer offsets +-1e3 .. +-1e6, scales 2^-20 .. 2^20, duplicate abscissae, 2 points, 100 / 1025 / 5000 samples, ordinates offset by 2^20, against the degree-1 fit AND a centred closed form; three-point circles on all triples (2 orders) of the 12 integer points of x^2+y^2=25 scaled by 2^-8 .. 2^20 and shifted up to (1e6, -2e6), flat triples (sagitta 2^-10), collinear triples on 8 lines at 1e3 .. 4e6 (exact and up to rounding) incl. coincident points, exactly collinear triples with one coordinate moved by one ulp; circle fit on 8 circles (r 2^-20 .. 1e6, centres up to 1e6) x 6 arcs (incl. clockwise) x 6 guesses x {All, Gaussian(3.0)} and perturbed, 1000 / 5000 exact and 2049 / 5000 perturbed samples, duplicated / scattered samples, guesses in 8 directions, sigma clipping with gross outliers (40 + 1..3, 3000 + 60 / 180 at the end of the list; Gaussian(2.0 / 2.5)); RANSAC on exactly 3 points, 3 + 1, duplicated points, the 12 integer points (+ 9 outliers) at 5 scales / offsets x 3 tolerances x 2 iteration counts, circles at 1e5 .. 1e6 / of radius 1e6, 1000 / 1001 / 1999 points, min_r only / max_r only, radius windows that exclude a better supported circle, inliers radially off by up to a quarter of the tolerance");
     for s in xsets().iter() {
         check_poly::<2>(&mut r, s); check_poly::<3>(&mut r, s); check_poly::<4>(&mut r, s); check_poly::<5>(&mut r, s); check_poly::<6>(&mut r, s);
     }
